@@ -29,6 +29,16 @@ def suspects():
     gs.append((Grammar("amb_two_paths", terms("a b c"), [NT("S", [A("X", "c"), A("Y", "c")], pub=True), NT("X", [A("a", "b")]), NT("Y", [A("a", "B2")]), NT("B2", [A("b")])]), "ambiguous"))
     gs.append((Grammar("amb_deep", terms("a b ;"), [NT("S", [A("L", ";")], pub=True), NT("L", [A("I"), A("L", "I")]), NT("I", [A("a"), A("a", "b"), A("P")]), NT("P", [A("a", "b")])]), "ambiguous"))
     gs.append((Grammar("amb_unit", terms("a b"), [NT("S", [A("X"), A("Y")], pub=True), NT("X", [A("a", "b")]), NT("Y", [A("a", "Z")]), NT("Z", [A("b")])]), "ambiguous"))
+    # a real conflict that sits on ONE lane of a grammar whose other lanes need the lane-table state split (LR(1)-not-LALR(1) shapes)
+    XY = [NT("X", [A("e", "X"), A("e")]), NT("Y", [A("e", "Y"), A("e")])]
+    gs.append((Grammar("amb_lane_g1", terms("a b c d e"), [NT("G", [A("a", "X", "d"), A("a", "Y", "c"), A("b", "X", "c"), A("b", "Y", "d"), A("b", "Y", "c")], pub=True)] + XY), "ambiguous"))
+    gs.append((Grammar("amb_lane_g2", terms("a b c d e"), [NT("G", [A("a", "X", "d"), A("a", "Y", "c"), A("b", "X", "c"), A("b", "Y", "d"), A("a", "X", "c")], pub=True),
+                                                            NT("X", [A("e")]), NT("Y", [A("e")])]), "ambiguous"))
+    gs.append((Grammar("amb_lane_start", terms("a b c d e"), [NT("G", [A("X", "c"), A("Y", "d"), A("a", "X", "d"), A("a", "Y", "c"), A("b", "X", "c"), A("b", "Y", "d"), A("b", "Y", "c")], pub=True)] + XY), "ambiguous"))
+    # shift/reduce on one lane only: after `2 q` lookahead e is both "reduce W = q" and "shift e"
+    gs.append((Grammar("lr2_lane_sr", terms("u v q e a b c d"), [
+        NT("S", [A("X", "c"), A("Y", "d"), A("u", "W", "a"), A("u", "V", "b"), A("v", "W", "e"), A("v", "V", "a")], pub=True),
+        NT("W", [A("q", "X"), A("q")]), NT("V", [A("q", "Y")]), NT("X", [A("e")]), NT("Y", [A("e")])]), "not_lr1"))
     # unambiguous but not LR(1) (needs two tokens of lookahead)
     gs.append((Grammar("lr2", terms("a b c"), [NT("S", [A("X", "a", "a"), A("Y", "a", "b")], pub=True), NT("X", [A("c")]), NT("Y", [A("c")])]), "not_lr1"))
     # reduce/reduce whose colliding lookahead reaches the two reductions from two different states (outer follow vs inner first)
